@@ -59,6 +59,17 @@ CHECKS = {
              "hands exactly carrier.take() through spawn/analyze unchanged. Covers all command histories (running or collected searches) at once.",
         design_ref="DESIGN.md section 4, C18",
         note=TB_COMMON + " MIR drop elaboration is trusted. A clear-and-reuse implementation (keeping allocations) would be reported: it needs its own proof."),
+    "C09": dict(
+        category="proof",
+        technique="static analysis: constant folding of the extracted lookup index term over all 107,648 (square, relevant subset) pairs against an independent "
+                  "geometry oracle, reader/writer term agreement, decision-table folding of Square::offset, per-path effect sequences of the slow ray computation, "
+                  "decoded offset/mask tables",
+        text="Proof on the literals plus structural wiring: the 128 magic numbers are perfect hashes (only constructive collisions) for the geometric relevance "
+             "masks at the declared widths under the index term actually used by the lookup; the table fill uses the same term, masks and widths for every "
+             "b in 0..2^width and stores the slow computation, which cuts each of the piece's rays at the nearest blocker; slide masks, direction/knight/king/pawn "
+             "offsets and rank/file masks equal geometry; Square::offset never wraps (64x25 cases folded); BitBoard::shift clears the leaving file.",
+        design_ref="DESIGN.md section 4, C09",
+        note=TB_COMMON + " Three loop shapes are read, not proved (compute_ray, compute_blockers_from_index, iteration over Square::ALL); lazy_static initialises each table once."),
 }
 
 NOT_BUILT_REASON = "check not built yet (see DESIGN.md for the plan)"
